@@ -481,9 +481,9 @@ func genPubWorld(r *rand.Rand, n int, emit func(Op)) {
 			/* the attacker lives at the same address under another port (host 5 is host 0's
 			   address with another port): authorities that differ by port only */
 			if r.Intn(2) == 0 {
-				home, evil = 0, simHosts
+				home, evil = 0, hostPortOnly
 			} else {
-				home, evil = simHosts, 0
+				home, evil = hostPortOnly, 0
 			}
 		}
 		/* the legitimate cast */
@@ -744,7 +744,7 @@ func genCollWorld(r *rand.Rand, emit func(Op)) {
 	home := r.Intn(simHosts)
 	other := (home + 1 + r.Intn(simHosts-1)) % simHosts
 	if r.Intn(8) == 0 {
-		home, other = 0, simHosts // the same address under another port
+		home, other = 0, hostPortOnly // the same address under another port
 	}
 	ordered := r.Intn(2) == 0
 	kindRoot, kindPage, itemsKey := "Collection", "CollectionPage", "items"
